@@ -148,23 +148,29 @@ Proof. rewrite <- memb_iff. destruct (memb x l); split; intro H; congruence. Qed
 
 Lemma domain_inv p st h :
   domain p st h = true ->
-  threshold_ok p (bonded_power st) = true /\
-  (forall a t, In a (votes st) -> In t (a_tuples a) -> Z.abs (snd t) <= SAFE_RATE) /\
-  (forall r, In r (rates st) -> 0 <= r_created r /\ r_created r + p_expiration p < UINT64) /\
-  0 <= p_expiration p /\ 0 <= p_reward_band p <= PREC.
+  0 < p_vote_period p /\ 0 <= p_threshold p <= PREC /\ 0 <= p_expiration p /\ 0 <= p_reward_band p <= PREC /\
+  0 <= bonded_power st < 2 ^ 63 /\
+  (forall a t, In a (votes st) -> In t (a_tuples a) -> Z.abs (snd t) <= DEC_LIMIT).
 Proof.
-  unfold domain. rewrite !andb_true_iff, !Z.leb_le, !forallb_forall.
-  intros [[[[[H1 H2] H3] H4] H5] H6]. split; [exact H1|]. split; [|split; [|lia]].
-  - intros a t Ha Ht. specialize (H2 a Ha). rewrite forallb_forall in H2. apply Z.leb_le. apply H2. exact Ht.
-  - intros r Hr. specialize (H3 r Hr). apply andb_true_iff in H3 as [A B].
-    apply Z.leb_le in A. apply Z.ltb_lt in B. lia.
+  unfold domain, params_valid, bonded_ok, rates_in_range.
+  rewrite !andb_true_iff, !Z.leb_le, !Z.ltb_lt, !forallb_forall.
+  intros [[[[[[[[H1 H2] H3] H4] H5] H6] H7] [[B1 B2] B3]] Hr].
+  unfold THR_MIN in H2.
+  split; [exact H1|]. split; [lia|]. split; [exact H7|]. split; [lia|]. split.
+  - split; [unfold bonded_power; apply Z.div_pos; lia | exact B3].
+  - intros a t Ha Ht. specialize (Hr a Ha). rewrite forallb_forall in Hr. specialize (Hr t Ht).
+    unfold in_range in Hr. apply Z.leb_le. exact Hr.
+Qed.
+
+Lemma expired_iff p e h : 0 <= p_expiration p -> (expired p e h = true <-> expired_at p e h).
+Proof.
+  intro He. unfold expired, expired_at. rewrite andb_true_iff, !Z.leb_le. lia.
 Qed.
 
 Lemma expired_in_domain p st h e :
   domain p st h = true -> In e (rates st) -> (expired p e h = true <-> expired_at p e h).
 Proof.
-  intros Hd Hin. apply domain_inv in Hd as [_ [_ [Hr [He _]]]]. specialize (Hr e Hin).
-  unfold expired, expired_at. rewrite Z.mod_small by lia. apply Z.leb_le.
+  intros Hd _. apply domain_inv in Hd as [_ [_ [He _]]]. apply expired_iff. exact He.
 Qed.
 
 Theorem update_P p st h rs evs :
